@@ -215,7 +215,9 @@ pub fn run_c16_auth(out: &mut Out, tier: &str, rng: &mut Rng) {
     for rep in 0..(if thorough { 120 } else { 24 }) {
         let mut drivers = vec![];
         for k in 0..rng.below(4) {
-            drivers.push(DriverCfg { da: 0x4A + k as u8, sa: if rng.chance(1, 3) { Some(0x30) } else { None }, timeout: Some(250), vendor: "laixer".into(), product: "hcu".into() });
+            // silent units too: a 0 ms timeout has always expired when teardown runs
+            let timeout = *rng.pick(&[Some(250u64), Some(0), None]);
+            drivers.push(DriverCfg { da: 0x4A + k as u8, sa: if rng.chance(1, 3) { Some(0x30) } else { None }, timeout, vendor: "laixer".into(), product: "hcu".into() });
         }
         for _ in 0..rng.below(3) {
             let d = known_driver(rng, Some(1000));
